@@ -80,6 +80,11 @@ type Cfg struct {
 	NTok      int    `json:"n_tokens_min"`
 	NLines    int    `json:"n_lines_min"`
 	ID        string `json:"id"`
+	// LongStay: the shell stays attached (with traffic) for more than 12 s after the listener
+	// closed, after a half-attached attempt that came and went before it
+	LongStay bool `json:"long_stay"`
+	// PartialCL: refused POSTs declare a Content-Length, send only part of the body and stay connected
+	PartialCL bool `json:"refused_post_with_content_length"`
 }
 
 func (c Cfg) sig() string {
@@ -153,11 +158,15 @@ func makeCfg0(rng *rand.Rand, i, rot int) Cfg {
 		// one case in ten: a client whose POST /o/<other id> was refused
 		// never hangs up
 		c.Hold = true
-		c.Junk = []string{"wrong-id", "several"}[rng.IntN(2)]
+		c.Junk = "several" // two refused uploads: a never-ending chunked one and a fixed-length one cut short
 		c.JunkWhere = "pre"
 		if c.Order == "i-o" && rng.IntN(2) == 0 {
 			c.JunkWhere = "real-half"
 		}
+	}
+	if i%10 == 3 && c.Order != "curl" {
+		c.LongStay = true
+		c.Junk, c.JunkWhere = "half-dies", "pre"
 	}
 	c.NTok, c.NLines = 220, 220
 	switch c.Order {
@@ -486,6 +495,7 @@ type env struct {
 
 	t2             time.Time // when the harness started the request that completes the shell
 	heldRefusedOut int       // refused /o requests whose client is still connected
+	nRefusedOut    int       // refused /o requests made so far in this case
 	heldShellOut   bool      // the ended shell's own /o request is still connected
 }
 
@@ -697,6 +707,22 @@ func (e *env) refusedAttempts(kinds []string, dir, id string) bool {
 		}
 		var conn interface{ Close() }
 		if isOut {
+			e.nRefusedOut++
+		}
+		// clients that never hang up: every second refused upload is a fixed-length one
+		if isOut && e.cfg.Hold && e.nRefusedOut%2 == 0 {
+			// a fixed-length upload of which only a part ever arrives
+			pc, err := hk.Dial(e.addr, "")
+			if err != nil {
+				e.tl.add("JUNK  %s %s failed: %v", k, target, err)
+				return false
+			}
+			pcc := connCloser{pc}
+			e.keep(pcc)
+			fmt.Fprintf(pc, "POST %s HTTP/1.1\r\nHost: fake.shell\r\nContent-Length: 200000\r\n\r\n%s", target, strings.Repeat("REFUSED-OUTPUT\n", 50))
+			conn = pcc
+			e.res.count("junk_refused_posts_with_partial_fixed_length_body", 1)
+		} else if isOut {
 			o, err := crs.OpenOut(e.addr, target)
 			if err != nil {
 				e.tl.add("JUNK  %s %s failed: %v", k, target, err)
@@ -772,6 +798,11 @@ func (e *env) halfDies(dir, id string, hold time.Duration, end string) bool {
 	e.res.count("junk_half_attached_died", 1)
 	return true
 }
+
+// connCloser adapts a raw connection to the Close() the bookkeeping wants.
+type connCloser struct{ c *hk.Conn }
+
+func (c connCloser) Close() { c.c.Close() }
 
 func junkKinds(j string) []string {
 	switch j {
@@ -1262,7 +1293,7 @@ func (e *env) fullShell() {
 	dl := time.Now().Add(boundTraffic * e.mult)
 	for time.Now().Before(dl) {
 		t.mu.Lock()
-		done := t.sent >= c.NTok && t.typed >= c.NLines && t.sentPost >= 60 && t.typedPost >= 60
+		done := t.sent >= c.NTok && t.typed >= c.NLines && t.sentPost >= 60 && t.typedPost >= 60 && (!c.LongStay || time.Since(tReady) > 12*time.Second)
 		serr := t.sendErr
 		t.mu.Unlock()
 		_, rerr := t.received()
